@@ -407,6 +407,64 @@ def make_o2(depth):
     return o2
 
 
+CASELESS_OPS = ["ieq", "icontains", "istartswith", "iendswith"]
+
+
+def caseless_pred(op, arg):
+    """the shipped case-insensitive predicates; the two that are built on an unbound C method of str (str.startswith / str.endswith cannot
+    dispatch to a proxy receiver) are built with the real pred2 on the equivalent bound call"""
+    if op == "ieq":
+        return Q.ieq(arg)
+    if op == "icontains":
+        return Q.icontains(arg)
+    if op == "istartswith":
+        return B.pred2(lambda v, a: v.startswith(a), ignore_case=True)(arg)
+    return B.pred2(lambda v, a: v.endswith(a), ignore_case=True)(arg)
+
+
+def caseless_ref(op, value, arg):
+    """documented meaning on text whose case mapping is plain (ASCII): compare the lower-cased forms"""
+    v, a = value.lower(), arg.lower()
+    return {"ieq": lambda: v == a, "icontains": lambda: a in v, "istartswith": lambda: v.startswith(a), "iendswith": lambda: v.endswith(a)}[op]()
+
+
+def make_o2c(maxlen):
+    """case-insensitive string predicates on symbolic text: interpreted == compiled == called for EVERY text (also where lower(), upper()
+    and casefold() disagree), standing alone and under not / and / or; on ASCII text also equal to the comparison of the lower-cased forms"""
+    from symx import sstr
+
+    def o2c(en):
+        op = CASELESS_OPS[en.choice("op", len(CASELESS_OPS))]
+        ascii_only = en.flag("ascii")
+        alpha = [(32, 126)] if ascii_only else None
+        arg = sstr.fresh_str_upto(en, "arg", maxlen, alpha, minlen=1)
+        value = sstr.fresh_str_upto(en, "val", maxlen, alpha, minlen=1)
+        wrap = ["plain", "not", "and-true", "or-false"][en.choice("wrap", 4)]
+        case = lambda mv: {"caseless_op": op, "arg": mv.str(arg), "value": mv.str(value), "wrap": wrap, "ascii": ascii_only}  # noqa
+        en.note_sample(case)
+        obj = wrap_pred(caseless_pred(op, arg), wrap)
+        interp = core.sbool(obj.test(value))
+        comp = core.sbool(obj.to_pyfunc()(value))
+        called = core.sbool(obj(value))
+        en.must_hold(s_and(interp == comp, comp == called), "interpreted-equals-compiled", case, detail="%s(%s): test(), compiled and called forms disagree" % (op, wrap))
+        if ascii_only:
+            exp = core.sbool(caseless_ref(op, value, arg))
+            if wrap == "not":
+                exp = s_not(exp)
+            en.must_hold(interp == exp, "interpreted-equals-compiled", case, detail="%s(%s) differs from the comparison of the lower-cased texts" % (op, wrap))
+    return o2c
+
+
+def wrap_pred(p, wrap):
+    if wrap == "not":
+        return ~p
+    if wrap == "and-true":
+        return p & B.pred(lambda v: True)
+    if wrap == "or-false":
+        return p | B.pred(lambda v: False)
+    return p
+
+
 def build_truth_term(term, t, caseless):
     if term[0] == "atom":
         i = term[1]
@@ -441,11 +499,36 @@ def obligations(tier):
                    desc="Boolean terms over 3 atoms with symbolic truth values: test() == to_pyfunc() == direct boolean value",
                    bounds={"term depth": 3 if thorough else 2, "atoms": 3, "caseless flag per atom": "both"}, encoded=enc[15:],
                    budget_s=600 if thorough else 60, replay="boolean", check_sample=True),
+        Obligation("O2c-caseless-text", make_o2c(3 if thorough else 2), ["interpreted-equals-compiled"],
+                   desc="the case-insensitive string predicates (ieq, icontains, istartswith, iendswith) on symbolic text and symbolic arguments, alone and under not / and / or: "
+                        "interpreted, compiled and called forms agree for every text of UNIVERSE (incl. code points whose lower(), upper() and casefold() differ); on ASCII text "
+                        "they equal the comparison of the lower-cased forms",
+                   bounds={"argument / value length": "1-%d symbolic characters each" % (3 if thorough else 2), "alphabet": "UNIVERSE, or printable ASCII for the reference clause",
+                           "wrapping": ["plain", "not", "and-true", "or-false"]},
+                   outside=["code points whose case mapping is not a single character (excluded from UNIVERSE)"],
+                   stubs=["istartswith / iendswith are rebuilt with the real pred2 on the bound str method (the shipped ones wrap an unbound C method); the shipped objects are checked on every natively replayed sample"],
+                   encoded=[B.pred2, B.CaselessPredicate.test, B.Boolean.to_pyfunc, B.Predicate.test], budget_s=600 if thorough else 90, replay="boolean", check_sample=True),
     ]
 
 
 # ------------------------------------------------------------------ native
 def _native(case):
+    if "caseless_op" in case:
+        op, arg, value, wrap = case["caseless_op"], case["arg"], case["value"], case["wrap"]
+        obj = wrap_pred(caseless_pred(op, arg), wrap)
+        interp, comp, called = bool(obj.test(value)), bool(obj.to_pyfunc()(value)), bool(obj(value))
+        # the shipped istartswith / iendswith objects themselves (native text: the C methods apply)
+        real = wrap_pred(getattr(Q, op)(arg), wrap)
+        r_interp, r_comp = bool(real.test(value)), bool(real.to_pyfunc()(value))
+        bad = []
+        if not (interp == comp == called) or r_interp != r_comp:
+            bad.append("%s(%r) on %r [%s]: test()=%s compiled=%s call=%s; shipped object: test()=%s compiled=%s" % (op, arg, value, wrap, interp, comp, called, r_interp, r_comp))
+        if case.get("ascii"):
+            exp = bool(caseless_ref(op, value, arg))
+            exp = (not exp) if wrap == "not" else exp
+            if interp != exp or r_interp != exp:
+                bad.append("%s(%r) on %r [%s] gives %s / %s, the lower-cased texts compare %s" % (op, arg, value, wrap, interp, r_interp, exp))
+        return bad
     if "term" in case:
         t = case["truth"]
         obj = build_truth_term(case["term"], t, case["caseless"])
@@ -515,6 +598,9 @@ def validate(tier):
         {"shape": [-1, 0, -1], "K": [5, 9, 0, 0, 0, 0, 0, 0], "names": [5, 5, 5], "attrs": [[], [], []], "combiner": True,
          "levels": [["name", ["lit", 0]]], "deep": True, "roots": True, "entry": "find"},
         {"term": ["not", ["and", ["atom", 0], ["atom", 1]]], "truth": [True, False, True], "caseless": [False, True, False]},
+        {"caseless_op": "ieq", "arg": "AbC", "value": "aBc", "wrap": "plain", "ascii": True},
+        {"caseless_op": "iendswith", "arg": "\u017f", "value": "x\u017f", "wrap": "not", "ascii": False},
+        {"caseless_op": "icontains", "arg": "\u03c2", "value": "\u03a3\u03c2", "wrap": "or-false", "ascii": False},
     ]
     for c in cases:
         bad = _native(c)
